@@ -846,9 +846,13 @@ def run(ck):
         ck.count("scripts:" + tag.split(":")[0].rstrip("0123456789"))
         for k, v in counts.items():
             ck.count(k, v)
-        branch_counts(ck, script)
+        if not tag.startswith("corpus:malformed"):
+            branch_counts(ck, script)
         sp = None
         for i, line in enumerate(script[1:]):
+            if tag.startswith("corpus:malformed"):
+                ck.count("malformed-lines")
+                continue
             if line.startswith("space "):
                 sp = line
                 continue
@@ -856,7 +860,7 @@ def run(ck):
             ck.case((sp, line), a != b and all(0.0 < p < 1.0 for p in par))
         if tag.startswith("gen") and len(ck.samples) < 4:
             ck.sample({"generator": tag, "script": script[:4] + ["…(%d more lines)" % (len(script) - 4)]})
-        fails = oracle(script, impl)
+        fails = [] if tag.startswith("corpus:malformed") else oracle(script, impl)
         if rc != 0 and not any(r["clause"] == "protocol" for _, r in fails):
             fails.append((min(len(impl) + 1, len(script) - 1), {"clause": "protocol", "culprit": "harness", "class": "exit code %s" % rc,
                                                                 "what": "harness exited with code %s: %s" % (rc, err[-300:])}))
